@@ -260,6 +260,12 @@ func (c *Ctx) ruleServeRouting(r2, r3 *RuleRep) {
 		// channel = result of a signaller look-up keyed by this packet's ID, or (for the unkeyed CONNACK / PINGRESP waiters)
 		// a channel field of this client's signaller read directly
 		rv := c.Resolve(ch)
+		if _, isPhi := rv.(*ssa.Phi); isPhi {
+			// `var ch; var ok; if table != nil { ch, ok = table[id] }; if ok { send }`: the channel on the paths that reach the send
+			if vals, reached := valuesAt(m.F, sends[0], rv); reached && len(vals) == 1 {
+				rv = c.Resolve(vals[0])
+			}
+		}
 		if ex, ok := rv.(*ssa.Extract); ok {
 			rv = ex.Tuple
 		}
@@ -443,7 +449,15 @@ func (c *Ctx) ruleInlineLookup(r2, r3 *RuleRep, m *serveModel, arm *serveArm, wa
 			return true
 		}
 		k2, id2, ok := c.waiterEntry(cc.Args[0], cc.Args[1])
-		return ok && k2 == kind && c.Resolve(id2) == c.Resolve(idv)
+		if !ok || k2 != kind {
+			return false
+		}
+		if c.Resolve(id2) == c.Resolve(idv) {
+			return true
+		}
+		// the identifier of the parsed packet read once more
+		b2, isID2 := isFieldLoad(c.Resolve(id2), want, "ID")
+		return isID2 && c.Resolve(b2) == arm.Pkt
 	}
 	lkey := "serve/" + want + "/consume"
 	if w, leak := CanReach(m.F, lk, func(in ssa.Instruction) bool { return in == ssa.Instruction(m.Read) || realExit(in) }, PathQ{BlockInstr: isDelete}); leak {
